@@ -175,7 +175,8 @@ def run(case, ctx, nontrivial=nontrivial):
             ctx.label("skipped:write-longer-than-command-budget")
             return
     try:
-        ndef.octets = data
+        # documented: bytes or bytearray; both forms are exercised
+        ndef.octets = bytearray(data) if len(data) & 1 else data
     except tagdev.BudgetExceeded:
         raise Violation("unbounded-commands", "writing %d bytes took more "
                         "than %d commands: %r" % (L, clf.device.budget, desc))
